@@ -6,6 +6,7 @@ Every VIOLATION on such a patch is a false alarm of the checker (or the patch is
 Exit 2 (BROKEN: an anchor the rule table names is gone) is reported separately."""
 import glob, json, os, shutil, subprocess, sys
 V = os.path.dirname(os.path.dirname(os.path.abspath(__file__)))
+REPO = os.environ.get("VLS_REPO", "/repo")
 
 
 def sh(c):
@@ -25,14 +26,14 @@ def main():
         if os.path.exists(f"{wt}/SEED/refactors.md"):
             shutil.copy(f"{wt}/SEED/refactors.md", os.path.join(d, f"refactors{('_' + tag) if tag else ''}.md"))
     props = [f"C{i:02d}" for i in range(1, 21)] if "--all-props" in a else [pid]
-    if sh("git -C /repo status --porcelain --untracked-files=no").stdout.strip():
+    if sh(f"git -C {REPO} status --porcelain --untracked-files=no").stdout.strip():
         print("refusing: /repo has uncommitted changes")
         return 2
     res = {}
     only = a[a.index("--only") + 1] if "--only" in a else ""
     for f in sorted(glob.glob(f"{d}/refactor_{only}*.diff")):
         k = os.path.basename(f)
-        r = sh(f"git -C /repo apply {f}")
+        r = sh(f"git -C {REPO} apply {f}")
         if r.returncode != 0:
             print(f"{pid}/{k}: does not apply: {r.stdout.strip()[:120]}")
             res[k] = {"applies": False}
@@ -52,7 +53,7 @@ def main():
                 print(f"{pid}/{k}: silent ({','.join(props) if len(props) < 4 else 'all props'})")
             res[k] = {"applies": True, "checks": out}
         finally:
-            sh("git -C /repo reset -q --hard HEAD && git -C /repo clean -fdq")
+            sh(f"git -C {REPO} reset -q --hard HEAD && git -C {REPO} clean -fdq")
     json.dump(res, open(f"{d}/result.json", "w"), indent=1)
     return 0
 
